@@ -174,7 +174,7 @@ class Ctx:
         self.traces = traces_before  # altered records are not executions of the implementation
         missed = [c["id"] for c in picked if c["id"] not in rej]
         self.extra.setdefault("corrupt_trace_selftest", []).append(
-            {"module": module, "altered": len(picked), "rejected": len(picked) - len(missed), "kinds": seen})
+            {"module": module, "altered": len(picked), "rejected": len(picked) - len(missed), "kinds": {str(k): v for k, v in seen.items()}})
         if missed:
             raise Machinery(f"corrupt-trace self-test: {module} accepted altered records {missed[:5]}")
 
